@@ -276,3 +276,243 @@ def cmpRunStats (c : Case) : List String :=
   c.tags
 
 end DX
+
+namespace DX
+
+/-! ## Clone and operators: expected values and call traces from `Sem/Basic.lean` -/
+
+def l2PreludeBasic : String := "#![allow(dead_code, unused_imports, unused_variables, unused_mut, non_snake_case, non_camel_case_types)]
+use derive_ex::{derive_ex, Ex};
+use std::cell::RefCell;
+thread_local! { static LOG: RefCell<Vec<String>> = RefCell::new(Vec::new()); }
+pub fn log(s: String) { LOG.with(|l| l.borrow_mut().push(s)); }
+pub fn take() -> String { LOG.with(|l| std::mem::take(&mut *l.borrow_mut())).join(\";\") }
+#[derive(Debug, PartialEq)]
+pub struct R(pub u32);
+impl Clone for R {
+    fn clone(&self) -> Self { log(format!(\"clone {}\", self.0)); R(self.0 + 1000) }
+    fn clone_from(&mut self, s: &Self) { log(format!(\"clone_from {} {}\", self.0, s.0)); self.0 = s.0 + 2000; }
+}
+#[derive(Debug, Clone, PartialEq)]
+pub struct M(pub String);
+macro_rules! mono { ($($tr:ident $f:ident $tra:ident $fa:ident $sym:literal),*) => {$(
+  impl std::ops::$tr<M> for M { type Output = M; fn $f(self, r: M) -> M { log(format!(\"{} oo {} {}\", stringify!($f), self.0, r.0)); M(format!(\"({}{}{})oo\", self.0, $sym, r.0)) } }
+  impl<'a> std::ops::$tr<&'a M> for M { type Output = M; fn $f(self, r: &M) -> M { log(format!(\"{} or {} {}\", stringify!($f), self.0, r.0)); M(format!(\"({}{}{})or\", self.0, $sym, r.0)) } }
+  impl<'a> std::ops::$tr<M> for &'a M { type Output = M; fn $f(self, r: M) -> M { log(format!(\"{} ro {} {}\", stringify!($f), self.0, r.0)); M(format!(\"({}{}{})ro\", self.0, $sym, r.0)) } }
+  impl<'a, 'b> std::ops::$tr<&'b M> for &'a M { type Output = M; fn $f(self, r: &M) -> M { log(format!(\"{} rr {} {}\", stringify!($f), self.0, r.0)); M(format!(\"({}{}{})rr\", self.0, $sym, r.0)) } }
+  impl std::ops::$tra<M> for M { fn $fa(&mut self, r: M) { log(format!(\"{} o {} {}\", stringify!($fa), self.0, r.0)); self.0 = format!(\"({}{}={})o\", self.0, $sym, r.0) } }
+  impl<'a> std::ops::$tra<&'a M> for M { fn $fa(&mut self, r: &M) { log(format!(\"{} r {} {}\", stringify!($fa), self.0, r.0)); self.0 = format!(\"({}{}={})r\", self.0, $sym, r.0) } }
+)*}}
+mono!(Add add AddAssign add_assign \"+\", BitAnd bitand BitAndAssign bitand_assign \"&\", BitOr bitor BitOrAssign bitor_assign \"|\",
+      BitXor bitxor BitXorAssign bitxor_assign \"^\", Div div DivAssign div_assign \"/\", Mul mul MulAssign mul_assign \"*\",
+      Rem rem RemAssign rem_assign \"%\", Shl shl ShlAssign shl_assign \"<<\", Shr shr ShrAssign shr_assign \">>\", Sub sub SubAssign sub_assign \"-\");
+impl std::ops::Neg for M { type Output = M; fn neg(self) -> M { log(format!(\"neg o {}\", self.0)); M(format!(\"-o{}\", self.0)) } }
+impl<'a> std::ops::Neg for &'a M { type Output = M; fn neg(self) -> M { log(format!(\"neg r {}\", self.0)); M(format!(\"-r{}\", self.0)) } }
+impl std::ops::Not for M { type Output = M; fn not(self) -> M { log(format!(\"not o {}\", self.0)); M(format!(\"!o{}\", self.0)) } }
+impl<'a> std::ops::Not for &'a M { type Output = M; fn not(self) -> M { log(format!(\"not r {}\", self.0)); M(format!(\"!r{}\", self.0)) } }
+"
+
+def BinOp.sym : BinOp → String
+  | .add => "+" | .bitAnd => "&" | .bitOr => "|" | .bitXor => "^" | .div => "/" | .mul => "*" | .rem => "%"
+  | .shl => "<<" | .shr => ">>" | .sub => "-"
+
+def refCh (b : Bool) : String := if b then "r" else "o"
+
+/-- Lean twin of `R` -/
+def rCloneSem : CloneSem Nat := { clone := fun _ x => x + 1000, cloneFrom := fun _ _ s => s + 2000 }
+
+/-- Lean twin of `M` for one operator kind -/
+def mOpSem (kind : Kind) : OpSem String :=
+  { bin := fun _ l r x y => match kind with
+      | .bin o => s!"({x}{o.sym}{y}){refCh l}{refCh r}"
+      | _ => ""
+    assign := fun _ r x y => match kind with
+      | .assign o => s!"({x}{o.sym}={y}){refCh r}"
+      | _ => ""
+    un := fun _ l x => match kind with
+      | .un .neg => s!"-{refCh l}{x}"
+      | .un .not => s!"!{refCh l}{x}"
+      | _ => "" }
+
+def shapeFields (item : Item) (variant : Nat) : Fields :=
+  match item with
+  | .struct_ s => s.fields
+  | .enum_ e => (e.variants.getD variant default).fields
+  | _ => { kind := .unit }
+
+/-- Rust constructor of a value whose fields are given as Rust expressions -/
+def ctorWith (item : Item) (variant : Nat) (vals : List String) : String :=
+  let path := match item with
+    | .struct_ s => s.name
+    | .enum_ e => e.name ++ "::" ++ (e.variants.getD variant default).name
+    | _ => ""
+  let fs := shapeFields item variant
+  match fs.kind with
+  | .unit => path
+  | .unnamed => path ++ "(" ++ ", ".intercalate vals ++ ")"
+  | .named => path ++ " { " ++ ", ".intercalate ((fs.fields.zip vals).map fun (p : Field × String) => s!"{p.1.name.getD "_"}: {p.2}") ++ " }"
+
+/-- `fn show(x: &X) -> String`: variant index and field values -/
+def showFn (item : Item) (fieldFmt : String) : String :=
+  let arm (path : String) (fs : Fields) (i : Nat) : String :=
+    let n := fs.fields.length
+    let binds := (List.range n).map fun k => s!"f{k}"
+    let pat := match fs.kind with
+      | .unit => path
+      | .unnamed => path ++ "(" ++ ", ".intercalate binds ++ ")"
+      | .named => path ++ " { " ++ ", ".intercalate ((fs.fields.zip binds).map fun (p : Field × String) => s!"{p.1.name.getD "_"}: {p.2}") ++ " }"
+    let parts := binds.map fun b => fieldFmt.replace "@" b
+    s!"{pat} => format!(\"v{i}:[{",".intercalate (binds.map fun _ => "{}")}]\"{"".intercalate (parts.map fun p => ", " ++ p)}),"
+  let arms := match item with
+    | .struct_ s => [arm s.name s.fields 0]
+    | .enum_ e => e.variants.zipIdx.map fun (v, i) => arm (e.name ++ "::" ++ v.name) v.fields i
+    | _ => []
+  let body := match item with
+    | .enum_ e => if e.variants.isEmpty then "match *x {}" else "match x { " ++ " ".intercalate arms ++ " }"
+    | _ => "match x { " ++ " ".intercalate arms ++ " }"
+  s!"pub fn show(x: &X) -> String \{ {body} }\n"
+
+def showVal {V} [ToString V] (item : Item) (v : Val V) : String :=
+  let n := (shapeFields item v.variant).fields.length
+  s!"v{v.variant}:[{",".intercalate ((List.range n).map fun i => toString (v.field i))}]"
+
+/-- a random Clone item over `R` fields -/
+def genCloneRunCase (seed idx : Nat) : Case := runGen seed idx do
+  let isEnum ← chance 3 5
+  let useDerive ← chance 1 3
+  let args : Args := { items := [{ trait_ := "Clone" }] }
+  let rF (n : Nat) (kind : FieldsKind) : Fields :=
+    { kind, fields := (List.range n).map fun i =>
+        { name := if kind == .named then some (["a", "b", "c", "d"].getD i "z") else none, ty := Ty.simple "R" } }
+  let attrs := if useDerive then [Attr.deriveEx args] else []
+  let item ← (do
+    if isEnum then
+      let nv ← pickW [(1, 1), (3, 2), (3, 3), (2, 4)]
+      let vs ← (List.range nv).mapM fun i => do
+        let k ← pickW [(2, FieldsKind.unit), (3, .unnamed), (3, .named)]
+        let n ← if k == .unit then pure 0 else pickW [(1, 0), (3, 1), (3, 2), (2, 3)]
+        pure ({ name := ["A", "B", "C", "D"].getD i "Z", fields := if k == .unit then { kind := .unit } else rF n k } : Variant)
+      pure (Item.enum_ { attrs, name := "X", variants := vs })
+    else
+      let k ← pickW [(1, FieldsKind.unit), (3, .unnamed), (3, .named)]
+      let n ← if k == .unit then pure 0 else pickW [(1, 0), (2, 1), (3, 2), (2, 3), (1, 4)]
+      pure (Item.struct_ { attrs, name := "X", fields := if k == .unit then { kind := .unit } else rF n k }))
+  pure { id := s!"cloneRun/{seed}/{idx}", tags := [s!"enum={isEnum}"], entry := if useDerive then .derive else .attr args, item }
+
+def genImplOf (c : Case) : Option GenImpl :=
+  let core := match c.entry, c.item with
+    | .attr a, .struct_ s => (structCore (some a) s).result
+    | .derive, .struct_ s => (structCore none s).result
+    | .attr a, .enum_ e => (enumCore (some a) e).result
+    | .derive, .enum_ e => (enumCore none e).result
+    | _, _ => .error ()
+  match core with
+  | .ok ((_, .ok g) :: _) => some g
+  | _ => none
+
+def allGenImpls (c : Case) : List GenImpl :=
+  let core := match c.entry, c.item with
+    | .attr a, .struct_ s => (structCore (some a) s).result
+    | .derive, .struct_ s => (structCore none s).result
+    | .attr a, .enum_ e => (enumCore (some a) e).result
+    | .derive, .enum_ e => (enumCore none e).result
+    | _, _ => .error ()
+  match core with
+  | .ok xs => xs.filterMap fun (_, o) => match o with | .ok g => some g | _ => none
+  | _ => []
+
+def cloneEvStr (dst src : Val Nat) : CloneEv → Option String
+  | .clone i => some s!"clone {src.field i}"
+  | .cloneFrom i => some s!"clone_from {dst.field i} {src.field i}"
+  | .cloneWhole => none
+
+def cloneRunProgram (c : Case) (modName : String) : String × List String :=
+  match genImplOf c with
+  | some (.clone ci) =>
+    let nv := match c.item with | .enum_ e => e.variants.length | _ => 1
+    -- two values per variant, all fields distinguishable
+    let vals : List (Nat × List Nat) := (List.range nv).flatMap fun v =>
+      let n := (shapeFields c.item v).fields.length
+      [0, 1].map fun k => (v, (List.range n).map fun i => 100 * v + 10 * k + i + 1)
+    let toVal (p : Nat × List Nat) : Val Nat := { variant := p.1, field := fun i => p.2.getD i 0 }
+    let ctor (p : Nat × List Nat) := ctorWith c.item p.1 (p.2.map fun x => s!"R({x})")
+    let body :=
+      s!"pub mod {modName} \{ use super::*;\n#[derive(Debug, PartialEq)] {rustItem c}\n{showFn c.item "@.0"}pub fn run() \{\n" ++
+      (String.join (vals.map fun p =>
+        s!" \{ let a = {ctor p}; take(); let z = a.clone(); let lg = take(); println!(\"{modName} clone \{} | \{} | src \{}\", show(&z), lg, show(&a)); }\n")) ++
+      (String.join (vals.flatMap fun p => vals.map fun q =>
+        s!" \{ let mut a = {ctor p}; let b = {ctor q}; take(); a.clone_from(&b); let lg = take(); println!(\"{modName} clone_from \{} | \{} | src \{}\", show(&a), lg, show(&b)); }\n")) ++
+      "}\n}\n"
+    let exp :=
+      (vals.map fun p =>
+        let a := toVal p
+        let (z, tr) := evalClone ci rCloneSem a
+        s!"{modName} clone {showVal c.item z} | {";".intercalate (tr.filterMap (cloneEvStr a a))} | src {showVal c.item a}") ++
+      (vals.flatMap fun p => vals.map fun q =>
+        let a := toVal p
+        let b := toVal q
+        let (z, tr) := evalCloneFrom ci rCloneSem a b
+        s!"{modName} clone_from {showVal c.item z} | {";".intercalate (tr.filterMap (cloneEvStr a b))} | src {showVal c.item b}")
+    (body, exp)
+  | _ => ("", [])
+
+/-- a random operator item (struct over `M` fields) -/
+def genOpsRunCase (seed idx : Nat) : Case := runGen seed idx do
+  let useDerive ← chance 1 3
+  let k ← pickW [(1, FieldsKind.unit), (3, .unnamed), (3, .named)]
+  let n ← if k == .unit then pure 0 else pickW [(1, 0), (2, 1), (3, 2), (2, 3), (1, 4)]
+  let nops ← pickW [(2, 1), (2, 2), (1, 3)]
+  let ops ← listOf nops (pick BinOp.all)
+  let ops := ops.eraseDups
+  let withAssign ← ops.mapM fun _ => chance 3 5
+  let un ← pickW [(2, ([] : List String)), (1, ["Neg"]), (1, ["Not"]), (1, ["Not", "Neg"])]
+  let traits := (ops.zip withAssign).flatMap (fun (o, a) => o.str :: (if a then [o.str ++ "Assign"] else [])) ++ un
+  let args := argsOfTraits traits
+  let fields : Fields := if k == .unit then { kind := .unit } else
+    { kind := k, fields := (List.range n).map fun i =>
+        { name := if k == .named then some (["a", "b", "c", "d"].getD i "z") else none, ty := Ty.simple "M" } }
+  pure { id := s!"opsRun/{seed}/{idx}", tags := [s!"fields={n}"],
+         entry := if useDerive then .derive else .attr args,
+         item := .struct_ { attrs := if useDerive then [.deriveEx args] else [], name := "X", fields } }
+
+def opEvStr (kind : Kind) (x y : Val String) (e : OpEv) : String :=
+  match kind with
+  | .bin o => s!"{o.func} {refCh e.lhsRef}{refCh e.rhsRef} {x.field e.field} {y.field e.field}"
+  | .assign o => s!"{o.func}_assign {refCh e.rhsRef} {x.field e.field} {y.field e.field}"
+  | .un u => s!"{u.func} {refCh e.lhsRef} {x.field e.field}"
+  | _ => ""
+
+def opsRunProgram (c : Case) (modName : String) : String × List String :=
+  let n := (shapeFields c.item 0).fields.length
+  let mk (tag : String) : Val String := { variant := 0, field := fun i => s!"{tag}{i}" }
+  let ctor (tag : String) := ctorWith c.item 0 ((List.range n).map fun i => s!"M(String::from(\"{tag}{i}\"))")
+  let x := mk "l"
+  let y := mk "r"
+  let impls := allGenImpls c
+  let lines : List (String × String) := impls.flatMap fun g =>
+    match g with
+    | .ops o =>
+      match o.kind with
+      | .bin b =>
+        (opForms o.kind).map fun (l, r) =>
+          let (z, tr) := evalBin o (mOpSem o.kind) l r x y
+          (s!" \{ let x = {ctor "l"}; let y = {ctor "r"}; take(); let z = {if l then "&x" else "x.clone()"} {b.sym} {if r then "&y" else "y.clone()"}; let lg = take(); println!(\"{modName} {b.str} {refCh l}{refCh r} \{} | \{} | \{} \{}\", show(&z), lg, show(&x), show(&y)); }\n",
+           s!"{modName} {b.str} {refCh l}{refCh r} {showVal c.item z} | {";".intercalate (tr.map (opEvStr o.kind x y))} | {showVal c.item x} {showVal c.item y}")
+      | .assign b =>
+        (opForms o.kind).map fun (_, r) =>
+          let (z, tr) := evalAssign o (mOpSem o.kind) r x y
+          (s!" \{ let mut x = {ctor "l"}; let y = {ctor "r"}; take(); x {b.sym}= {if r then "&y" else "y.clone()"}; let lg = take(); println!(\"{modName} {b.str}Assign {refCh r} \{} | \{} | \{}\", show(&x), lg, show(&y)); }\n",
+           s!"{modName} {b.str}Assign {refCh r} {showVal c.item z} | {";".intercalate (tr.map (opEvStr o.kind x y))} | {showVal c.item y}")
+      | .un u =>
+        (opForms o.kind).map fun (l, _) =>
+          let (z, tr) := evalUn o (mOpSem o.kind) l x
+          let sym := if u == .neg then "-" else "!"
+          (s!" \{ let x = {ctor "l"}; take(); let z = {sym}{if l then "&x" else "x.clone()"}; let lg = take(); println!(\"{modName} {u.str} {refCh l} \{} | \{} | \{}\", show(&z), lg, show(&x)); }\n",
+           s!"{modName} {u.str} {refCh l} {showVal c.item z} | {";".intercalate (tr.map (opEvStr o.kind x y))} | {showVal c.item x}")
+      | _ => []
+    | _ => []
+  let body := s!"pub mod {modName} \{ use super::*;\n#[derive(Debug, Clone, PartialEq)] {rustItem c}\n{showFn c.item "@.0"}pub fn run() \{\n" ++
+    String.join (lines.map (·.1)) ++ "}\n}\n"
+  (body, lines.map (·.2))
+
+end DX
